@@ -29,7 +29,7 @@ ASSUMPTIONS = [
     "bitwise comparison: the library is deterministic for a fixed request; 'equal to 1e-12 but not bitwise' is counted separately as ulp_diff and is not a violation (observed 0)",
     "LinearOperator outputs (implicit mode) are compared through their dense action on the identity",
 ]
-BUDGET = {"quick": dict(cases=1300, seconds=75), "thorough": dict(cases=12000, seconds=560)}
+BUDGET = {"quick": dict(cases=900, seconds=75), "thorough": dict(cases=12000, seconds=560)}
 CASE_TIMEOUT = 240
 MONITORS = {"poison": True, "solvers": False, "product": False}
 MONITOR_VERDICTS = ("pending", "write")
@@ -144,27 +144,23 @@ class Mode:
 
     def _implicit(self, spec):
         from pymablock import block_diagonalize
+        from vf import implicit
 
         rng = rng_for(10, spec["case"], 1)
-        N = int(rng.integers(6, 10))
-        cplx = bool(rng.integers(0, 2))
-        A = rng.integers(-8, 9, size=(N, N)) / 4.0
-        B = rng.integers(-8, 9, size=(N, N)) / 8.0
-        if cplx:
-            A = A + 1j * rng.integers(-8, 9, size=(N, N)) / 4.0
-            B = B + 1j * rng.integers(-8, 9, size=(N, N)) / 8.0
-        A, B = A + A.conj().T + np.diag(np.arange(N) * 3.0), B + B.conj().T
-        _, V = np.linalg.eigh(A)
-        n_exp = int(rng.integers(1, 3))
-        cuts = [2] if n_exp == 1 else [1, 3]
-        vecs = [V[:, a:b] for a, b in zip([0] + cuts[:-1], cuts)]
-        h0, h1 = sparse.csr_array(A), sparse.csr_array(B)
-        self.inputs = [h0, h1, vecs]
-        self.nb, self.n_par = n_exp + 1, 1
+        ispec = implicit.gen(rng, "quick", n_par=1)
+        ispec["N"] = min(ispec["N"], 9)
+        c = implicit.build(ispec)
+        Hi, _ = implicit.hamiltonians(c, sparse_input=bool(rng.integers(0, 2)))
+        vecs = list(c["expl"])
+        kw = dict(hermitian=c["hermitian"])
+        if ispec["fd"]:
+            kw["fully_diagonalize"] = (0,)
+        self.inputs = [Hi, vecs]
+        self.nb, self.n_par = len(c["sizes"]) + 1, 1
         self.orders = [(0,), (1,), (2,)]
-        self.mk = lambda: block_diagonalize([h0, h1], subspace_eigenvectors=vecs)
-        self.sig = ["implicit", N, cplx, n_exp]
-        self.sample = dict(mode="implicit", N=N, complex=cplx, explicit_blocks=n_exp)
+        self.mk = lambda: block_diagonalize(Hi, subspace_eigenvectors=vecs, **kw)
+        self.sig = ["implicit", ispec["N"], ispec["complex"], c["sizes"], c["hermitian"], ispec["fd"]]
+        self.sample = dict(mode="implicit", **{k: v for k, v in ispec.items()})
 
 
 def _request(outs, req):
